@@ -116,10 +116,22 @@ pub const STATE_PREFIXES: &[&str] = &[
     "en-u-ca-", "en-t-", "en-t-h0-", "-", "en-u-ca-foo-t-h0-bar-x-a",
 ];
 
+/// one representative per class the parsers distinguish (the third / fourth position of the thorough enumerations)
+fn mini_alphabet() -> Vec<Vec<u8>> {
+    [
+        &b""[..], b"a", b"u", b"t", b"x", b"1", b"ab", b"a1", b"1a", b"abc", b"123", b"abcd", b"1abc", b"abcde", b"abcdefgh", b"abcdefghi",
+        b"true", b"und", b"US", b"Latn", b"h0", b"*", b"\xff",
+    ]
+    .iter()
+    .map(|t| t.to_vec())
+    .collect()
+}
+
 fn stream_tokens(thorough: bool, out: &mut dyn Write) {
     let ops = ops_env();
     let full = token_alphabet(true);
     let red = token_alphabet(false);
+    let mini = mini_alphabet();
     // (i) all sequences up to length 2 over the full alphabet, 3 over the reduced (4 in thorough)
     emit_input(out, &ops, b"");
     for a in &full {
@@ -132,8 +144,10 @@ fn stream_tokens(thorough: bool, out: &mut dyn Write) {
         for b in &red {
             for c in &red {
                 emit_input(out, &ops, &join(&[a, b, c], b'-'));
-                if thorough {
-                    for d in &red {
+            }
+            if thorough {
+                for c in &mini {
+                    for d in &mini {
                         emit_input(out, &ops, &join(&[a, b, c, d], b'-'));
                     }
                 }
@@ -145,11 +159,10 @@ fn stream_tokens(thorough: bool, out: &mut dyn Write) {
         let pv = p.as_bytes().to_vec();
         for a in &full {
             emit_input(out, &ops, &join(&[&pv, a], b'-'));
-            let cont = if thorough { &full } else { &red };
-            for b in cont {
+            for b in &red {
                 emit_input(out, &ops, &join(&[&pv, a, b], b'-'));
                 if thorough {
-                    for c in &red {
+                    for c in &mini {
                         emit_input(out, &ops, &join(&[&pv, a, b, c], b'-'));
                     }
                 }
